@@ -1030,10 +1030,25 @@ pub fn combos(r: &mut Rng, extra: usize) -> Vec<[usize; 7]> {
         }
         out.push(c);
     }
-    for _ in 0..extra {
+    for i in 0..extra {
         let mut c = [0usize; 7];
         for d in 0..7 {
             c[d] = r.usize_below(DIMS[d]);
+        }
+        // uniform flags land on the materialised route 7 times out of 8 (-S, -a, --seq each force
+        // it): steer half of the extra combinations to the lazy route and an eighth (and the first
+        // three) to the identity fast path (-c, --preserve-input, `.`, no raw mode)
+        let m = if i < 3 { 0 } else { r.below(8) };
+        if m < 4 {
+            c[1] = 0;
+            c[2] = 0;
+            c[4] = 0;
+        }
+        if m == 0 {
+            c[0] = *r.pick(&[1usize, 11, 12]);
+            c[3] = 0;
+            c[5] = 1;
+            c[6] = 0;
         }
         out.push(c);
     }
@@ -1076,7 +1091,7 @@ fn request(r: &mut Rng, c: &[usize; 7], gs: &[G]) -> String {
 
 pub fn gen(tier: Tier, r: &mut Rng, emit: &mut dyn FnMut(String)) {
     // one CLI process per request: the quick tier is the pairwise-covering flag set (≈100 processes)
-    let extra = if tier == Tier::Quick { 12 } else { 4_000 };
+    let extra = if tier == Tier::Quick { 40 } else { 4_000 };
     let cs = combos(r, extra);
     for (n, c) in cs.iter().enumerate() {
         let prog = PROGS[c[6]];
